@@ -618,6 +618,9 @@ class EvalError(Exception):
     pass
 
 
+EVAL_TIES: list = []    # set by eval_term: the evaluation passed a (near) tie of a comparison or floor
+
+
 def eval_term(ctx: Ctx, term, inputs: dict, prec=40):
     """Evaluate a z3 term built by this layer at concrete inputs (name -> number), interpreting
     Ackermann constants by the real elementary functions (mpmath).  Raises EvalError outside the domain."""
@@ -625,6 +628,15 @@ def eval_term(ctx: Ctx, term, inputs: dict, prec=40):
 
     mp.mp.dps = prec
     cache = {}
+    del EVAL_TIES[:]
+
+    def tie(a, b):
+        # a discontinuity (comparison / floor) whose operands (almost) tie: doubles may land on the other side
+        try:
+            if abs(a - b) <= mp.mpf("1e-9") * (1 + abs(a) + abs(b)):
+                EVAL_TIES.append(1)
+        except Exception:
+            pass
 
     def ev(e):
         i = e.get_id()
@@ -698,19 +710,24 @@ def eval_term(ctx: Ctx, term, inputs: dict, prec=40):
         if k == z3.Z3_OP_TO_REAL:
             return ev(ch[0])
         if k == z3.Z3_OP_TO_INT:
-            return mp.floor(ev(ch[0]))
-        if k == z3.Z3_OP_LT:
-            return ev(ch[0]) < ev(ch[1])
-        if k == z3.Z3_OP_LE:
-            return ev(ch[0]) <= ev(ch[1])
-        if k == z3.Z3_OP_GT:
-            return ev(ch[0]) > ev(ch[1])
-        if k == z3.Z3_OP_GE:
-            return ev(ch[0]) >= ev(ch[1])
-        if k == z3.Z3_OP_EQ:
-            return ev(ch[0]) == ev(ch[1])
-        if k == z3.Z3_OP_DISTINCT:
-            return ev(ch[0]) != ev(ch[1])
+            x = ev(ch[0])
+            tie(x, mp.nint(x))
+            return mp.floor(x)
+        if k in (z3.Z3_OP_LT, z3.Z3_OP_LE, z3.Z3_OP_GT, z3.Z3_OP_GE, z3.Z3_OP_EQ, z3.Z3_OP_DISTINCT):
+            a, b = ev(ch[0]), ev(ch[1])
+            if not isinstance(a, bool) and not isinstance(b, bool):
+                tie(a, b)
+            if k == z3.Z3_OP_LT:
+                return a < b
+            if k == z3.Z3_OP_LE:
+                return a <= b
+            if k == z3.Z3_OP_GT:
+                return a > b
+            if k == z3.Z3_OP_GE:
+                return a >= b
+            if k == z3.Z3_OP_EQ:
+                return a == b
+            return a != b
         if k == z3.Z3_OP_AND:
             return all(ev(c) for c in ch)
         if k == z3.Z3_OP_OR:
